@@ -149,15 +149,20 @@ func runTour(cfg *RunCfg, sysName string, salt int64, keyMode int, tour []Step) 
 		conc.sizes = sizeClassesLarge
 	}
 	x := NewExec(sys, conc)
+	addr := cfg.Addr
+	if strings.HasSuffix(addr, "+rawpath") {
+		addr = strings.TrimSuffix(addr, "+rawpath")
+		x.RawPath = true
+	}
 	switch {
-	case strings.HasPrefix(cfg.Addr, "host:"):
-		x.Addr = hostStyle(cfg.Addr[5:])
-	case cfg.Addr == "slashes":
+	case strings.HasPrefix(addr, "host:"):
+		x.Addr = hostStyle(addr[5:])
+	case addr == "slashes":
 		x.Addr = extraSlashes
-	case cfg.Addr == "api":
+	case addr == "api":
 		x.Api = true
-	case strings.HasPrefix(cfg.Addr, "plainhost:"):
-		x.Host = cfg.Addr[10:]
+	case strings.HasPrefix(addr, "plainhost:"):
+		x.Host = addr[10:]
 	}
 	steps := 0
 	for i, st := range tour {
